@@ -75,6 +75,8 @@ func c09(c *q.Ctx) {
 	}
 	// the declared reads are compared with the current versions once more under the key locks, at commit
 	commitVersionChecks(c)
+	blockVerifyFirstError(c)
+	lockKeyExtraction(c)
 	scanComposition(c)
 	// K7 PreExec / verifyTxRWSets agree
 	pe := c.Fn("kernel/engines/xuperos::(*Chain).PreExec")
@@ -165,4 +167,31 @@ func utxoReaderRules(c *q.Ctx) {
 		c.ReturnIs(su, 0, []string{"nil", "p0.inputCache[p0.inputIdx:][:*]"}, "what is handed out is the prefix of the not yet consumed inputs that was scanned")
 		c.FieldStoreAny(su, "UTXOReader.inputIdx", "(p0.inputIdx + *)", "the cursor advances past the inputs just consumed (never resets)")
 	}
+}
+
+// blockVerifyFirstError (C09, C07, C03): the transactions of a block are verified group by group on goroutines; the
+// verdict of the block is the first ERROR of any group. The once-only slot that records it is consumed by errors only -
+// a group that verified fine and finishes first must not use it up.
+func blockVerifyFirstError(c *q.Ctx) {
+	const name = "bcs/ledger/xledger/state::(*State).verifyBlockTxs"
+	vb := c.Fn(name)
+	if vb == nil {
+		return
+	}
+	n := 0
+	var walk func(f *ssa.Function)
+	walk = func(f *ssa.Function) {
+		for _, a := range f.AnonFuncs {
+			if len(q.CallsIn(a, "sync::Once.Do")) > 0 {
+				n++
+				c.OnlyUnder(a, q.ToCall("sync::Once.Do"), []q.Cond{{Canon: "(nil == state.(*State).verifyDAGTxs(*))", Sense: false}}, "only a failed group records its error as the block's verdict")
+			}
+			walk(a)
+		}
+	}
+	walk(vb)
+	if n == 0 {
+		c.OK("K2", name, "no once-only error slot is used", "-", "the first error is not recorded through sync.Once in this version")
+	}
+	c.Before(vb, q.ToCall("WaitGroup.Wait"), q.ToReturn(), "the verdict is read after every group finished")
 }
